@@ -80,7 +80,7 @@ var lcSignificant = map[string]bool{
 	"handleStateOpen": true, "PublishTransaction": true, "AddAccount": true,
 	"DeriveSharedKey": true, "resumeAccount": true, "signSpendTx": true,
 	"CancelAccountSpend": true, "CancelAccountConf": true,
-	"MarkBatchComplete": true, "PendingBatch": true,
+	"MarkBatchComplete": true, "PendingBatch": true, "WatchMatchedAccounts": true,
 }
 
 // stateArgs resolves the argument of StateModifier(x) inside fn: a State
